@@ -266,7 +266,7 @@ def r_join(p):
     ps = [mk_domain(d) for d in p['patches']]
     conns = [tuple(tuple(x) if isinstance(x, list) else x for x in cn) for cn in p['conns']]
     conns = [conns[i] for i in p.get('order', range(len(conns)))]
-    ins = [('p%d' % i, o) for i, o in enumerate(ps)] + [('conns', list(conns))]
+    ins = [('p%d' % i, o) for i, o in enumerate(ps)] + [('conns', conns), ('patches', ps)]
     b = snap(ins)
     D = Domain.join(ps, conns, p['name'])
     y = D.todict()
